@@ -165,6 +165,16 @@ pub const FOLLOWERS: &[(&str, &str)] = &[
     ("colon", ": x"),
     ("slash", "/x"),
     ("nonascii", "é"),
+    // white space ends the expression whatever comes after it
+    ("space-dot-ident", " .len()"),
+    ("newline-dot-ident", "\n  .pow(2)"),
+    ("tab-dot-ident", "\t.x"),
+    ("space-colons", " ::x"),
+    ("space-paren", " (x)"),
+    ("space-bracket", " [0]"),
+    ("space-brace", " {x}"),
+    ("space-bang", " !(x)"),
+    ("crlf-dot", "\r\n.x"),
 ];
 
 fn gen_cases(args: &crate::Args) -> Vec<Case> {
